@@ -3,7 +3,7 @@
 import json, os
 
 VERIF = os.path.dirname(os.path.dirname(os.path.abspath(__file__)))
-HOOK_COMMITS = ["19b08c3", "e4710d6"]   # e4710d6 is a fix: commit that also adapts the guarded thread-table dump to the new fields
+HOOK_COMMITS = ["19b08c3", "e4710d6", "c3a83be"]   # e4710d6 is a fix: commit that also adapts the guarded thread-table dump to the new fields
 
 COMMON_NOTE = ("Trusted: Lean 4.33 kernel (axioms propext, Classical.choice, Quot.sound only; audited per theorem "
                "on every run), the hand-written model lean/LoomVerif/Model/* (modelled, not verified; tied to /repo "
